@@ -57,6 +57,8 @@ def mc_cfg_text(m):
              "  MaxLenB = %d" % m.get("MaxLenB", m.get("MaxLen", 3)),
              "  MaxExt = %d" % m.get("MaxExt", 1),
              "  MaxCap = %d" % m.get("MaxCap", 1000000000),
+             "  MaxLazyDepth = %d" % m.get("MaxLazyDepth", 1),
+             "  MaxLazyN = %d" % m.get("MaxLazyN", 1),
              "  OneHandle = %s" % ("TRUE" if m.get("OneHandle", False) else "FALSE"),
              "  MaxOut = %d" % m.get("MaxOut", 0),
              "  MaxRepl = %d" % m.get("MaxRepl", 0),
